@@ -115,10 +115,12 @@ def run(ctx):
               "R14.1", gv.qualname, "use of range validators", loc(gv, gv.node),
               "_get_validators no longer adds the range validators (existence checks of the 8.3 generation)",
               desc="_get_validators adds range validators")
+    vgv = view(ctx, gv)
     for vn in table["always"]["both"]:
-        cnt = sum(1 for x in ast.walk(gv.node) if isinstance(x, ast.Attribute) and x.attr == vn)
-        ctx.check(cnt >= 2, "R14.1", gv.qualname, "always-on " + vn, loc(gv, gv.node),
-                  "%s is not appended in both generation branches of _get_validators" % vn, desc="%s in both branches" % vn)
+        hold = {n_ for n_ in vgv.cfg.nodes if any(isinstance(x, ast.Attribute) and x.attr == vn for r_ in vgv.node_roots(n_) for x in ast.walk(r_))}
+        ok_always = bool(hold) and vgv.cfg.exit not in vgv.reachable_from_entry(avoid=hold)
+        ctx.check(ok_always, "R14.1", gv.qualname, "always-on " + vn, loc(gv, gv.node),
+                  "%s is not appended on every path through _get_validators (both rule generations)" % vn, desc="%s on every path" % vn)
     for vn in table["always"]["new"]:
         ctx.check(any(isinstance(x, ast.Attribute) and x.attr == vn for x in ast.walk(gv.node)), "R14.1", gv.qualname,
                   "always-on " + vn, loc(gv, gv.node), "%s is no longer added for hedId" % vn, desc="%s added for hedId" % vn)
@@ -515,11 +517,11 @@ def run(ctx):
     ctx.saw(iec)
     v17 = view(ctx, iec)
     rd17 = _RD(iec)
+    sp17 = iec.params()[0]
     lookups = {t.id for a in walk_no_nested(iec.node) if isinstance(a, ast.Assign) and isinstance(a.value, ast.Call)
-               and call_name(a.value) == "get" and "hed_schema" in norm(a.value.func) for t in a.targets if isinstance(t, ast.Name)}
-    n_look = sum(1 for a in walk_no_nested(iec.node) if isinstance(a, ast.Assign) and isinstance(a.value, ast.Call)
-                 and call_name(a.value) == "get" and "hed_schema" in norm(a.value.func))
-    ctx.floor("R14.17", "section lookups in item_exists_check", n_look, 3)
+               and any(isinstance(x, ast.Name) and x.id == sp17 for x in ast.walk(a.value))
+               for t in a.targets if isinstance(t, ast.Name)}
+    ctx.floor("R14.17", "item lookups through the schema in item_exists_check", len(lookups), 1)
     from sa.null import nonnull_labels as _nnl
     missing = [c for c in v17.conds(lambda t: any(_nnl(t, nm) for nm in lookups) and not isinstance(t, ast.BoolOp))]
     ctx.floor("R14.17", "'item not found' tests", len(missing), 1)
